@@ -142,18 +142,64 @@ def _occ_case(args):
         if (base & ~more).any():
             out['failures'].append({'what': 'making a visible opaque cell transparent hid a cell', 'fn': fn_name,
                                     'shape': [h, w], 'walls': bits, 'cell': [y, x]})
+    # the stochastic view can show exactly the cells the deterministic view shows (same rays, same counts):
+    # with every random() tiny but positive a cell is shown iff its probability is positive
+    if fn_name == 'raytracing':
+        class Tiny:
+            def random(self, shape=None):
+                import numpy as np
+                return np.full(shape, 1e-12)
+        sv = vf.stochastic_raytracing(grid_of(bits), pos, rng=Tiny())
+        out['evaluations'] += 1
+        if (sv != base).any():
+            out['failures'].append({'what': 'stochastic view can show a cell the deterministic view cannot (or misses one)',
+                                    'shape': [h, w], 'walls': bits})
     out['failures'] = out['failures'][:2]
+    return out
+
+
+def _occ_large(args):
+    h, w, seed = args
+    import numpy as np
+    from gym_gridverse.envs import visibility_functions as vf
+    from gym_gridverse.geometry import Position
+    from gym_gridverse.grid import Grid
+    from gym_gridverse.grid_object import Floor, Wall
+    r = random.Random(seed)
+    out = {'evaluations': 0, 'nontrivial': 0, 'failures': []}
+    class Tiny:
+        def random(self, shape=None):
+            return np.full(shape, 1e-12)
+    for _ in range(20):
+        dens = r.choice([0.05, 0.1, 0.2, 0.35])
+        cells = [[Wall() if r.random() < dens else Floor() for _ in range(w)] for _ in range(h)]
+        pos = Position(h - 1, w // 2)
+        cells[pos.y][pos.x] = Floor()
+        g = Grid(cells)
+        det = vf.raytracing(g, pos)
+        sto = vf.stochastic_raytracing(g, pos, rng=Tiny())
+        out['evaluations'] += 1
+        out['nontrivial'] += int(det.sum() > 1)
+        if (det != sto).any() and len(out['failures']) < 1:
+            out['failures'].append({'what': 'stochastic view can show a cell the deterministic view cannot (or misses one)',
+                                    'shape': [h, w], 'walls': [[int(isinstance(c, Wall)) for c in row] for row in cells]})
+        if not det[pos.y, pos.x]:
+            out['failures'].append({'what': 'own cell not visible', 'fn': 'raytracing', 'shape': [h, w]})
     return out
 
 
 def occlusion(tier, seed):
     shapes = [(3, 3), (2, 5), (3, 4), (4, 3), (3, 5)] if tier == 'quick' else [(3, 3), (2, 5), (3, 4), (4, 3), (3, 5), (4, 4), (2, 7), (5, 3)]
     cases = [(fn, h, w, b) for fn in ('partially_occluded', 'raytracing') for (h, w) in shapes for b in range(1 << (h * w))]
+    large = [(h, w, seed * 1000 + k) for (h, w) in ((7, 7), (5, 9), (9, 5), (7, 4)) for k in range(8 if tier == 'quick' else 60)]
     with mp.Pool(16) as pool:
         res = pool.map(_occ_case, cases, chunksize=256)
+        res += pool.map(_occ_large, large, chunksize=2)
     return {
-        'what': 'occlusion is monotone, non-interfering and chain-connected (C06 d), partially_occluded and raytracing',
-        'bound': f'all wall/floor patterns of views {shapes} x every opaque cell flipped',
+        'what': 'occlusion is monotone, non-interfering and chain-connected (C06 d), partially_occluded and raytracing; '
+                'stochastic view support = deterministic view',
+        'bound': f'all wall/floor patterns of views {shapes} x every opaque cell flipped; plus {len(large) * 20} random '
+                 'layouts of 7x7 / 5x9 / 9x5 / 7x4 views for the stochastic-vs-deterministic comparison',
         'evaluations': sum(r['evaluations'] for r in res),
         'distinct_nontrivial': sum(r['nontrivial'] for r in res),
         'failures': [f for r in res for f in r['failures']][:5],
